@@ -78,8 +78,9 @@ def to_global(s):
     return g
 
 
-# (SGP: the only country without crop land; MUS: an island state where the feed round can yield less meat than no feed)
-QUICK_CC = ["ARG", "USA", "IND", "CHN", "NZL", "DJI", "LSO", "EST", "SLV", "ECU", "JPN", "ZAF", "SGP", "MUS", "WOR"]
+# (SGP: the only country without crop land; MUS: an island state where the feed round can yield less meat than no feed;
+#  URY: a meat exporter where the final feed top-up meets a binding, non-zero feed demand)
+QUICK_CC = ["ARG", "USA", "IND", "CHN", "NZL", "DJI", "LSO", "EST", "SLV", "ECU", "JPN", "ZAF", "SGP", "MUS", "URY", "WOR"]
 QUICK_PRESETS = ["net_baseline", "net_nuclear_winter", "net_nuclear_resilient", "net_nuclear_resilient_more_area",
                  "ms_worst", "ms_simple_ration", "ms_example_res"]
 
